@@ -230,7 +230,7 @@ def run(ck):
 
 
 def replay(ck, path):
-    doc = json.load(open(path)) if not path.endswith(".jsonl") else {"input": None, "jsonl": path}
+    doc = json.load(open(path)) if not path.endswith(".jsonl") else {"input": None, "jsonl": os.path.abspath(path)}
     if doc.get("jsonl"):
         inp = doc["jsonl"]
     else:
